@@ -85,9 +85,20 @@ pub fn ballast_only(img: &mut Store, v: &VolCfg, rng: &mut Rng) -> Result<(), St
         free = (2..g.n_clusters + 2).filter(|c| refdec::fat_val(img, &g, *c) == 0).collect();
     }
     let keep = (keep as usize).min(free.len());
-    for _ in 0..keep {
-        let i = rng.usize_below(free.len());
-        free.swap_remove(i);
+    match v.ballast_mode {
+        0 => {
+            free.drain(..keep);
+        }
+        1 => {
+            let n = free.len();
+            free.truncate(n - keep);
+        }
+        _ => {
+            for _ in 0..keep {
+                let i = rng.usize_below(free.len());
+                free.swap_remove(i);
+            }
+        }
     }
     let copies: Vec<u32> = if g.mirroring() { (0..g.nfats).collect() } else { vec![g.active_fat()] };
     for c in free {
